@@ -3,7 +3,7 @@
    ([reachable]) or over an arbitrary single step: every schedule of the fetch / verify / store /
    revert / restart pipeline and every source behaviour (failures, stale or abandoned-fork heads,
    corrupted blocks, reorgs of any depth at any moment). *)
-From Coq Require Import List NArith Bool.
+From Coq Require Import List NArith Bool Lia.
 From V Require Import C06.Model C06.Proofs C06.Proofs_B.
 Import ListNotations.
 Open Scope N_scope.
@@ -116,11 +116,7 @@ Theorem C06_reset_good : forall s s', reachable s -> step s Reset = Some s' -> G
 Proof. exact reset_good. Qed.
 Print Assumptions C06_reset_good.
 
-(* Full liveness — "for every Good, non-converged state outside the two excluded shapes below,
-   exists n, converged (run_fair n s) = true" — is NOT proved in general (it needs the case analysis
-   that every restart cycle of [sched] reaches a StoreOk or RevertOne).  What is proved: each such
-   event is strict progress and nothing else moves the distance (above); the fair scheduler does
-   converge on the concrete histories below; and the two excluded shapes really do not converge. *)
+(* Full liveness of the model's fair scheduler is C06_converges below. *)
 Definition after (s : state) (es : list event) : state :=
   match run s es with Some s' => s' | None => s end.
 Definition synced5 : state := run_fair 200 (after init [SrcExtend; SrcExtend; SrcExtend; SrcExtend; SrcExtend]).
@@ -183,3 +179,155 @@ Proof.
   exists live_es, live_s, (after live_s [RevertOne]), (hd (mkB 0 0 0 false) (loc live_s)).
   vm_compute. repeat split; auto.
 Qed.
+
+(* ---------- liveness of the model's fair scheduler (frozen honest source) ---------- *)
+From V Require Import C06.Proofs_D.
+
+(* Live s = Good s (invariant + everything in flight reflects the current source)
+          /\ XL s /\ XR s (pipeline consistency: the recorded latest header is the source's tip; a
+             comparison result exists only at or below lpv; a revertTask that has not reverted yet
+             is about to) — all four hold right after any stream restart (C06_reset_live) —
+          /\ NT s : the source chain is not a strict prefix of the local chain (replacement hypothesis)
+          /\ NW s : not (source = 1 block, local >= 2 blocks, different genesis)  (registered finding 3).
+   Registered findings 1 and 2 (stale header from an abandoned fork; in-flight successor of a
+   replaced chain) are excluded by "frozen honest source": [sched] never emits SrcReorg /
+   FetchStaleHead, and Good says nothing in flight predates the current source chain. *)
+
+(* every step of the fair scheduler is enabled, keeps Live, and strictly decreases
+   fair_measure = 64*dist + 4*phase + owed sends; phase <= 10: between two StoreOk / RevertOne
+   events (each of which lowers dist, C06_measure_decreases) there are at most 40 + |owed| steps,
+   i.e. every restart cycle reaches a StoreOk or RevertOne (or convergence) *)
+Theorem C06_sched_step_progress : forall s, Live s -> converged s = false ->
+  exists e s', sched s = Some e /\ step s e = Some s' /\ Live s' /\ (fair_measure s' < fair_measure s)%nat.
+Proof. exact sched_progress. Qed.
+Print Assumptions C06_sched_step_progress.
+
+(* hence the fair run reaches local = source within a bounded number of steps *)
+Theorem C06_converges : forall s, Live s ->
+  converged (run_fair (fair_measure s) s) = true /\
+  loc (run_fair (fair_measure s) s) = src s /\
+  (fair_measure s <= 64 * dist s + 40 + length (obox s))%nat.
+Proof. exact converges_lemma. Qed.
+Print Assumptions C06_converges.
+
+Theorem C06_reset_live : forall s s', reachable s -> step s Reset = Some s' -> NT s' -> NW s' -> Live s'.
+Proof. exact reset_live. Qed.
+Print Assumptions C06_reset_live.
+
+(* from ANY reachable state: once the streams have been restarted, with the source frozen and
+   honest from then on, the model's fair scheduler makes the local chain equal to the source's *)
+Theorem C06_converges_after_restart : forall s s', reachable s -> step s Reset = Some s' ->
+  NT s' -> NW s' ->
+  converged (run_fair (fair_measure s') s') = true /\
+  loc (run_fair (fair_measure s') s') = src s' /\
+  fair_measure s' = (64 * dist s' + 28)%nat.
+Proof. exact converges_after_restart_lemma. Qed.
+Print Assumptions C06_converges_after_restart.
+
+(* the hypotheses are satisfiable by a non-trivial state, and the bound is generous *)
+Lemma reach_pre : forall es, reachable (after init es).
+Proof.
+  intros es. unfold after. destruct (run init es) as [s|] eqn:E.
+  - exists es; auto.
+  - exists []; reflexivity.
+Qed.
+Lemma reach_after : forall s es, reachable s -> reachable (after s es).
+Proof.
+  intros s es R. unfold after. destruct (run s es) as [s'|] eqn:E; auto. eapply reachable_run; eauto.
+Qed.
+Lemma synced5_reachable : reachable synced5.
+Proof. apply reachable_run_fair, reach_pre. Qed.
+
+Definition reorged_pre : state := after synced5 [SrcReorg 3; SrcExtend; SrcExtend; SrcExtend; SrcExtend].
+Example C06_ex_live_hypotheses : Live reorged /\ fair_measure reorged = 476%nat /\
+  length (sched_trace 476 reorged) = 26%nat.
+Proof.
+  split; [|vm_compute; auto].
+  apply (reset_live reorged_pre).
+  - apply reach_after, synced5_reachable.
+  - vm_compute. reflexivity.
+  - unfold NT, strict_prefix. intros [_ H]. vm_compute in H. lia.
+  - unfold NW. intros [H _]. vm_compute in H. discriminate.
+Qed.
+
+(* NT is needed: every other hypothesis holds, the fair run does not converge within the bound *)
+Definition truncated_pre : state := after synced5 [SrcReorg 2].
+Example C06_converges_needs_no_truncation :
+  Good truncated /\ XL truncated /\ XR truncated /\ NW truncated /\ ~ NT truncated /\
+  converged (run_fair (fair_measure truncated) truncated) = false.
+Proof.
+  split; [apply (reset_good truncated_pre);
+          [apply reach_after, synced5_reachable|vm_compute; reflexivity]|].
+  split; [unfold XL; intros h g H; vm_compute in H; discriminate|].
+  split; [unfold XR; vm_compute; exact I|].
+  split; [unfold NW; intros [H _]; vm_compute in H; discriminate|].
+  split; [|vm_compute; reflexivity].
+  intro H. apply H. unfold strict_prefix. split; [|vm_compute; lia].
+  vm_compute. intros x Hx. intuition.
+Qed.
+
+(* NW is needed *)
+Definition wrapped_pre : state := after synced5 [SrcReorg 5; SrcExtend].
+Example C06_converges_needs_no_wrap :
+  Good wrapped /\ XL wrapped /\ XR wrapped /\ NT wrapped /\ ~ NW wrapped /\
+  converged (run_fair (fair_measure wrapped) wrapped) = false.
+Proof.
+  split; [apply (reset_good wrapped_pre);
+          [apply reach_after, synced5_reachable|vm_compute; reflexivity]|].
+  split; [unfold XL; intros h g H; vm_compute in H; discriminate|].
+  split; [unfold XR; vm_compute; exact I|].
+  split.
+  { unfold NT, strict_prefix. intros [Hi _].
+    assert (F : In (mkB 0 6 0 true) (loc wrapped)) by (apply Hi; vm_compute; auto).
+    vm_compute in F. intuition discriminate. }
+  split; [|vm_compute; reflexivity].
+  intro H. apply H. split; [vm_compute; reflexivity|]. split; [vm_compute; lia|].
+  vm_compute. discriminate.
+Qed.
+
+(* "everything in flight reflects the current source" (Fresh, part of Good) is needed for the
+   per-step measure: a verified block of the replaced chain still waiting for storeTask is stored
+   first and INCREASES the distance (this is registered finding 2 seen from the model) *)
+Definition stale_pend : state :=
+  after synced5 [SrcExtend; FetchOk 5; Verify (mkB 5 6 5 true); SrcReorg 1; SrcExtend].
+Example C06_measure_needs_fresh :
+  reachable stale_pend /\ ~ Fresh stale_pend /\
+  exists s', step stale_pend (StoreOk (mkB 5 6 5 true)) = Some s' /\ (dist stale_pend < dist s')%nat.
+Proof.
+  split; [apply reach_after, synced5_reachable|].
+  split.
+  - intros [_ [H _]]. specialize (H (mkB 5 6 5 true)). vm_compute in H.
+    assert (F : False); [|exact F]. destruct H as [H|[H|[H|[H|[H|[H|[]]]]]]]; auto; discriminate.
+  - eexists. split; [vm_compute; reflexivity|vm_compute; lia].
+Qed.
+
+(* ---------- N fetchers, out-of-order completion ---------- *)
+(* the in-flight set is unordered and unbounded: any number of fetchers may complete in any order,
+   verification may run in any order; only storeTask is ordered (by the head) *)
+Definition b0 := mkB 0 1 0 true.
+Definition b1 := mkB 1 2 1 true.
+Definition b2 := mkB 2 3 2 true.
+Definition b3 := mkB 3 4 3 true.
+Example C06_ex_out_of_order_pipeline :
+  (exists s, run init [SrcExtend; SrcExtend; SrcExtend; SrcExtend;
+                       FetchOk 3; FetchOk 1; FetchOk 0; FetchOk 2;          (* four fetchers, any completion order *)
+                       Verify b2; Verify b0; Verify b3; Verify b1;          (* verifiers in any order *)
+                       StoreOk b0; NotifyNewHead; StoreOk b1; NotifyNewHead;
+                       StoreOk b2; NotifyNewHead; StoreOk b3; NotifyNewHead] = Some s
+             /\ loc s = src s /\ newheads (tr s) = [b0; b1; b2; b3]) /\
+  (* a later block can never be stored before its predecessor, whatever completed first *)
+  run init [SrcExtend; SrcExtend; FetchOk 1; Verify b1; StoreOk b1] = None /\
+  run init [SrcExtend; SrcExtend; FetchOk 1; FetchOk 0; Verify b1; Verify b0; StoreOk b0; NotifyNewHead; StoreOk b1] <> None.
+Proof. split; [eexists; vm_compute; auto|]. split; vm_compute; [reflexivity|discriminate]. Qed.
+
+Theorem C06_fetch_any_time : forall s h b, at_num (src s) h = Some b ->
+  exists s', step s (FetchOk h) = Some s' /\ infl s' = b :: infl s /\ loc s' = loc s /\ rv s' = rv s.
+Proof. intros s h b H. simpl. rewrite H. eexists; repeat split. Qed.
+Print Assumptions C06_fetch_any_time.
+
+Theorem C06_verify_any_order : forall s b, In b (infl s) -> okb b = true ->
+  exists s', step s (Verify b) = Some s' /\ pend s' = b :: pend s /\ infl s' = infl s.
+Proof.
+  intros s b Hin Hok. simpl. rewrite (In_memb b (infl s) Hin), Hok. eexists; repeat split.
+Qed.
+Print Assumptions C06_verify_any_order.
